@@ -352,7 +352,7 @@ int main(int argc, char** argv) {
     std::function<void()> rec = [&]() {
       if (c.capped) return;
       if (c.mine(idx++)) {
-        if ((idx & 1023) == 0 && c.out_of_time()) return;
+        if (c.tick(256)) return;
         std::vector<OpDef> ops; for (int i : h) ops.push_back(al[i]);
         if (run_program(arch, kBase, ops, &outcomes)) { if (h.size() >= 3) c.sample(std::string(arch_name(arch)) + ": " + [&] { std::string s; for (auto& o : ops) s += op_str(o) + ";"; return s; }(), 9); }
         count++;
